@@ -216,6 +216,46 @@ def run(ctx, build):
                     fs.close()
                 except Exception:
                     pass
+    # ---- one path object creates a file, writes through the handle and is then used to remove it (C10's recovery
+    #      history): every intermediate image of the unlink, and a consistent volume at its end
+    for ft in ('fat16', 'fat32', 'fat12'):
+        g = fatimg.Geometry(ft, 60, spc=1, bps=512, nfats=2, root_entries=64, fsinfo=True, type_string=True)
+        b = fatimg.Builder(g, rng)
+        buf = bytearray(b'\xA5' * GUARD) + b.img + bytearray(b'\x5A' * GUARD)
+        tr = fattrace.Tracer(buf, slice(GUARD, len(buf) - GUARD))
+        fs = tr.open_fs()
+        t = fatops.Tree()
+        try:
+            for op in (dict(op='write', path='/bystander.bin', data=bytes(range(200)) * 4, via='bytes'), dict(op='mkdir', path='/d')):
+                fatops.apply_model(t, op)
+                fatops.apply_impl(fs, op)
+            obj = fs.root / 'd' / 'made and removed by one object.bin'
+            payload = bytes(rng.getrandbits(8) for _ in range(3 * g.cs + 5))
+            with obj.open('wb') as f:
+                f.write(payload)
+            wop = dict(op='write', path='/d/made and removed by one object.bin', data=payload, via='bytes')
+            fatops.apply_model(t, wop)
+            before = copy.deepcopy(t)
+            uop = dict(op='unlink', path='/d/made and removed by one object.bin')
+            fatops.apply_model(t, uop)
+            def same_object_unlink():
+                try:
+                    obj.unlink()
+                    return ('unlink', 'ok')
+                except Exception as e:          # noqa: BLE001
+                    return ('unlink', fatops.exc_class(e))
+            res, events = tr.run(same_object_unlink)
+            n = sum(1 for e in events if e[0] == 'poke')
+            images += n
+            ctx.case(('same-object-unlink', ft), n >= 2, 'same-object-unlink')
+            info = dict(fat_type=ft, case='unlink through the path object that created and wrote the file', outcome=str(res)[:60], intermediate_images=n)
+            if not examine(ctx, R, g, events, before, uop, info):
+                return
+        finally:
+            try:
+                fs.close()
+            except Exception:
+                pass
     # ---- operations that fail for lack of space (C10's cases), every intermediate image --------------
     combos = [('fat16', 0, False), ('fat32', 0, True), ('fat12', 0, False)]
     for ft, extra, fsinfo in combos:
